@@ -95,10 +95,10 @@ def driverStep (d : DState) (line : String) : DState × String :=
   | ["config", a, b, c, o, k] =>
     match parseDec a, parseDec b, parseDec c, parseDec o, parseDec k with
     | some slots, some cap, some maxEv, some o, some k =>
-      if slots < 1 ∨ slots > 256 ∨ cap < 1 ∨ cap > 100000 ∨ maxEv < 1 ∨ maxEv > 64 ∨ o > 1
+      if slots < 1 ∨ slots > 256 ∨ cap < 1 ∨ cap > 100000 ∨ maxEv < 1 ∨ maxEv > 64 ∨ o > 7
           ∨ k > 100000 then (d, "bad-op")
       else
-        let st := State.init ⟨slots, cap, maxEv, if o = 1 then .initCharge else .none⟩
+        let st := State.init ⟨slots, cap, maxEv, if o = 0 then .none else if o = 1 then .initCharge else .reindex⟩
         (⟨true, false, st, CelerVerif.Stack.Stack.new k⟩, s!"config ok stack {k} neutral 10" ++ dump st)
     | _, _, _, _, _ => (d, "bad-op")
   | ws =>
